@@ -194,7 +194,7 @@ AlgCases == { Case("alg", [Bg2 EXCEPT !.isCa = IF self THEN CaU ELSE NoCa], self
                 sa \in Algs, ia \in Algs, self \in Bool }
             (* the subject's key given as a parsed SubjectPublicKeyInfo / taken from a parsed request, for every key type *)
             \cup { Case("alg", [Bg2 EXCEPT !.isCa = NoCa], FALSE, sa, ia, Kid("sha256"), src) :
-                     sa \in Algs, ia \in {"ed25519", "ecdsa-p384-sha384"}, src \in {"spki", "csr"} }
+                     sa \in Algs, ia \in {"ed25519", "ecdsa-p384-sha384"}, src \in {"spki", "csr", "csr-path"} }
 
 (* automatic serial: classes of the first two octets of SHA-256(subject public key); the harness searches *)
 (* a public key whose digest starts with exactly these two octets                                       *)
@@ -216,7 +216,14 @@ OutsideIssuerCases == { Case("validity", [Base EXCEPT !.nb = nb, !.na = na, !.is
                           na \in {Tm(2039, 12, 31, 23, 59, 59), Tm(2040, 1, 1, 0, 0, 0), Tm(2040, 1, 1, 0, 0, 1), Tm(2041, 6, 1, 0, 0, 0), Tm(2055, 1, 1, 0, 0, 0),
                                   Tm(9999, 12, 31, 23, 59, 59)},
                           ca \in {NoCa, CaU} }
-Cases == BadStringCases \cup PathLenKuCases \cup OutsideIssuerCases \cup LongKidCases \cup AutoSerialCases \cup PresenceCases \cup KuCases \cup PathLenCases \cup PrefixCases \cup SanCases \cup NcCases \cup DnCases
+(* the same issuance through the request object (CertificateSigningRequestParams::signed_by with the case's parameters put in): *)
+(* key-identifier methods on both sides, requested AKI, validity dates under offsets around the form boundaries                *)
+TmOff(y, mo, d, h, mi, sec, ns, off) == [y |-> y, mo |-> mo, d |-> d, h |-> h, mi |-> mi, s |-> sec, ns |-> ns, off |-> off]
+CsrPathCases == { Case("csr-path", [Base EXCEPT !.isCa = ca, !.aki = aki, !.kid = ks, !.nb = nb, !.na = na], FALSE, "ed25519", "ed25519", ki, "csr-path") :
+                    ca \in {NoCa, CaU}, aki \in Bool, ks \in {Kid("sha256"), Kid("sha512"), KidPre(<<1, 2, 3, 4>>)}, ki \in {Kid("sha256"), Kid("sha384"), KidPre(<<9, 9>>)},
+                    nb \in {T0, TmOff(2024, 3, 1, 10, 20, 30, 500, 19800), TmOff(1950, 1, 1, 0, 30, 0, 0, 3600)},
+                    na \in {T1, TmOff(2050, 1, 1, 3, 0, 0, 0, 18000), TmOff(2049, 12, 31, 22, 0, 0, 999, -10800)} }
+Cases == CsrPathCases \cup BadStringCases \cup PathLenKuCases \cup OutsideIssuerCases \cup LongKidCases \cup AutoSerialCases \cup PresenceCases \cup KuCases \cup PathLenCases \cup PrefixCases \cup SanCases \cup NcCases \cup DnCases
          \cup KidCases \cup SerialCases \cup EkuCases \cup CustomCases \cup CustomAkiCases \cup IssuerKindCases \cup AlgCases
 
 (* ---- abstract keys for the model (the harness substitutes real keys and real digests) ---- *)
